@@ -202,6 +202,23 @@ def run(P, R, tier):
 
     from rules import common as _common
     _common.forward(P, R, 'C11', ['C11.d'], 'C12.c', 'bounds rows are matched with partitions by position: pieces of several datasets must stay grouped per dataset, in the order the bounds are concatenated', floor=1)
+    # C12.i: "this dataset has no recorded bounds" is signalled by None and the caller drops ALL bounds when any dataset says so (bounds of only some of
+    # the datasets would be taken for the extent of the whole frame).  Caller and callee must agree on the sentinel: the caller tests `is None`, so the
+    # loader must be able to return None -- a loader that answers {} instead makes the caller keep partial bounds
+    none_tests = [c for c in ast.walk(perform.node) if isinstance(c, ast.Compare) and isinstance(c.ops[0], (ast.Is, ast.IsNot)) and norm(c.comparators[0]) == 'None'
+                  and any(reader.name in norm(astq.expand(perform, x)) or True for x in [c.left])]
+    uses_loader = any(astq.is_call_to(P, perform, c, reader) for c in ast.walk(perform.node) if isinstance(c, ast.Call))
+    rets = [r_ for r_ in walk_own(reader.node) if isinstance(r_, ast.Return) and r_.value is not None]
+    may_none = False
+    for r_ in rets:
+        if norm(r_.value) == 'None':
+            may_none = True
+        elif isinstance(r_.value, ast.Name):
+            may_none = may_none or any(d[0] == 'expr' and norm(d[1]) == 'None' for d in astq.assignments(reader, r_.value.id))
+    if uses_loader and none_tests:
+        R.check(may_none, 'C12.i', reader, rets[0] if rets else None, 'the loader can answer None ("no recorded bounds"), the sentinel the reader tests for',
+                f'{reader.name} never returns None, but {perform.name} recognises a dataset without recorded bounds by `is None`: with one such dataset in a list the reader keeps the '
+                'bounds of the other datasets only, and everything reduced from them (total_bounds, cx pruning, Hilbert grid) covers part of the frame', construct='no-bounds sentinel agreement')
     # ---------------------------------------------------------------- C12.d filter (E-ORD) + C12.e + C12.f
     blk = None
     for s in astq.own_nodes(perform, ast.If):
